@@ -40,6 +40,22 @@ PLANS = {
         assumptions=COMMON_ASSUMPTIONS,
         gates=dict(rel=dict(max_levels=64, max_distinct_level_lengths=3, single_symbol_huffman_trees=1)),
     ),
+    "C04": dict(
+        lanes=dict(quick=[("rel", N), ("dbg", N), ("asan", N), ("miri", N), ("mirirel", N)],
+                   thorough=[("rel", N), ("dbg", N), ("asan", N), ("miri", N), ("mirirel", N), ("memcheck", N)]),
+        rule="cases = (public type x way of obtaining a value x input): the 10 tree aliases x 6 element types, RSQVector256/512, QVector(+Builder), "
+             "RSNarrow, RSWide, DArray<false/true>, BitVector, BitVectorMut; states: every constructor on empty and non-empty input, Default, Clone, "
+             "conversions, deserialization of a serialized value. On every state: the full query battery plus hostile argument products "
+             "(positions 0,1,2,63,64,n-2..n+2,n+255..n+4096,2n+1,u32::MAX,2^43+1,2^63,usize::MAX-1,usize::MAX; every quad symbol 0..=255; tree symbols "
+             "0,1,max,max+1,max+2,T::MAX,2^32+s,2^64+s,2^100; every (index,len) pair of those sets for get_bits/set_bits/append_bits; arbitrary "
+             "prefetch positions), all remaining safe methods (space usage, Debug, iterators run past exhaustion). Outcome classifier: value per "
+             "model, None for invalid arguments, panics only for the documented (operation, argument predicate) pairs. The same cases run in "
+             "release, debug-assertions+overflow-checks, ASan and Miri (dev and release) builds; process deaths are attributed through the journal. "
+             "Class = (lane, type, family, length/kind bucket).",
+        assumptions=COMMON_ASSUMPTIONS + ["size-like arguments (with_capacity, with_zeros, extend_with_zeros) are kept <= 2^24: beyond that only allocation failure is possible, which the property permits"],
+        class_per_lane=True,
+        gates=dict(any=dict()),
+    ),
     "C05": dict(
         lanes=dict(quick=[("rel", N), ("dbg", N), ("miri", N)],
                    thorough=[("rel", N), ("dbg", N), ("asan", N), ("miri", N), ("mirirel", N)]),
